@@ -26,13 +26,13 @@ open CoapVerif.Spec.Wire (Bytes Opt Msg)
 
 /-- Error enumeration of the line protocol (DESIGN appendix A). -/
 inductive Err
-  | panic | tooSmall | truncated | badVersion | badToken | badMID | badType
+  | panic | tooSmall | truncated | badVersion | badToken | badMID | badType | badCode
   | optTruncated | optExtMarker | optOverflow | optCap | shortRead | invalidLen
 deriving Repr, DecidableEq, Inhabited
 
 def Err.toString : Err → String
   | .panic => "panic" | .tooSmall => "tooSmall" | .truncated => "truncated" | .badVersion => "badVersion"
-  | .badToken => "badToken" | .badMID => "badMID" | .badType => "badType" | .optTruncated => "optTruncated"
+  | .badToken => "badToken" | .badMID => "badMID" | .badType => "badType" | .badCode => "badCode" | .optTruncated => "optTruncated"
   | .optExtMarker => "optExtMarker" | .optOverflow => "optOverflow" | .optCap => "optCap"
   | .shortRead => "shortRead" | .invalidLen => "invalidLen"
 
